@@ -851,6 +851,10 @@ O(id='BIT_STRING_uper.size-grid', props=['C01', 'C02'], kind='native', harness='
 O(id='SEQUENCE_encode_oer.aoms8', props=['C02', 'C06', 'C07'], kind='bounded', entry='h_SEQUENCE_encode_oer', functions=['SEQUENCE_encode_oer', 'asn_put_few_bits', 'asn_put_aligned_flush', 'oer_open_type_put'],
   unwind=22, cbmc=['--no-malloc-may-fail'], bound='as SEQUENCE_encode_oer with eight extension additions (a full bitmap octet: no unused bits)', min_props=60, timeout=900, **dict(SQE, defines=['VF_CB_CAP=20', 'VF_AOMS=8']))
 
+O(id='SET_OF_encode_xer.grid', props=['C06', 'C07', 'C14'], kind='native', harness='harness/grid_setof_xer.c', entry='main',
+  functions=['SET_OF_encode_xer', 'SET_OF_encode_xer_callback', 'SET_OF_xer_order'], no_canary=True,
+  bound='native grid under ASan/UBSan/LSan: lists of 0..3 stub elements over 5 texts: CANONICAL-XER text sorted and independent of the order in memory; BASIC and CANONICAL with the k-th allocation (0..7) or the j-th output call (0..9) failing', timeout=600)
+
 for _o in OBLIGATIONS:
     if _o.get('enforce') and _o.get('kind') in ('enforce', 'width') and _o.get('tier') == 'quick' and 'C19' not in _o['props']:
         _o['props'] = _o['props'] + ['C19']
